@@ -12,6 +12,10 @@ def list_cases(tier, seed):
         for b in bodies:
             for signed in (False, True):
                 out.append((k, b, signed))
+    # the same random-size bodies with the constraint on the size stated AFTER the body (statement order must not matter)
+    for b in ("sum", "product", "unique", "elem_lt", "size_rel", "idx_eq"):
+        for signed in (False, True):
+            out.append(("randsz_late", b, signed))
     out += [("objects", "obj_field", False), ("objects", "obj_idx", False), ("enum", "unique", False),
             ("objects_randsz", "obj_idx", False), ("objects_randsz", "obj_field", False)]
     return out
@@ -75,6 +79,9 @@ def c_lists(c, kind, body, signed):
                 info="%s len=%d size=%d list=%r" % (tag, len(lst), lst.size, L))
         c.check("C04: elements inside the declared element type", all(lo_t <= x <= hi_t for x in L), info=repr(L))
 
+    late = kind == "randsz_late"
+    if late:
+        kind = "randsz"
     if kind in ("fixed", "randsz"):
         for (sz_lo, sz_hi) in ([(0, 0), (1, 1), (3, 3), (4, 4)] if kind == "fixed" else [(0, 3), (1, 4), (2, 2), (0, 0)]):
             @vsc.randobj
@@ -88,8 +95,13 @@ def c_lists(c, kind, body, signed):
 
                 @vsc.constraint
                 def c(self):
-                    if kind == "randsz":
+                    if kind == "randsz" and not late:
                         self.l.size.inside(vsc.rangelist((sz_lo, sz_hi)))
+                    self.body()
+                    if kind == "randsz" and late:
+                        self.l.size.inside(vsc.rangelist((sz_lo, sz_hi)))
+
+                def body(self):
                     if body == "elem_lt":
                         with vsc.foreach(self.l) as it:
                             it < 5
@@ -116,7 +128,7 @@ def c_lists(c, kind, body, signed):
                         self.t.inside(self.l)
                     elif body == "size_rel":
                         self.l.size == self.t
-            tag = "%s[%d..%d] %s signed=%s" % (kind, sz_lo, sz_hi, body, signed)
+            tag = "%s%s[%d..%d] %s signed=%s" % (kind, " size-constraint-last" if late else "", sz_lo, sz_hi, body, signed)
             try:
                 o = C()
                 expect_len = len(o.l)
